@@ -27,6 +27,8 @@ def parseWSched (s : String) : List WEv :=
     | 'z' :: _ => some .zero
     | 'f' :: _ => some .fail
     | 'p' :: _ => some .panic
+    -- over-report (`Ok(len + 1)`, nothing taken): std's `write_all` panics at `&buf[n..]` — a panicking sink
+    | 'o' :: _ => some .panic
     | _ => none
 
 def parseInt (s : String) : Int :=
